@@ -95,6 +95,14 @@ func (h *RetryHandler) ExecuteWithRetry(
 			return lastErr
 		}
 
+		if errors.Is(lastErr, ErrEndpointSkipped) {
+			// The engine declined to contact this endpoint (e.g. its circuit is open),
+			// nothing was sent, so another candidate can serve the request. The endpoint's
+			// health status is left alone, that is the health checker's call
+			availableEndpoints = h.removeFailedEndpoint(availableEndpoints, endpoint)
+			continue
+		}
+
 		if !IsConnectionError(lastErr) {
 			// Non-connection error warrants immediate failure
 			return lastErr
@@ -106,6 +114,10 @@ func (h *RetryHandler) ExecuteWithRetry(
 
 	return h.buildFinalError(availableEndpoints, maxRetries, lastErr)
 }
+
+// ErrEndpointSkipped is returned (wrapped) by a ProxyFunc that did not contact the endpoint
+// at all, the retry handler then moves on to the next candidate
+var ErrEndpointSkipped = errors.New("endpoint skipped")
 
 // responseTracker records whether the response has been started (status line or
 // body bytes written). Unwrap keeps http.ResponseController features such as
